@@ -61,6 +61,9 @@ def gen_cases(tier, seed):
         add("recycle", 2, bsid=4, ccrc=False, sessions=3)
         add("recycle", 1, bsid=4, ccrc=True, sessions=3)
         add("recycle", 1, bsid=4, small_blocks=True, sessions=3)
+        add("maxblock", 1, bsid=4, raw=False, bcrc=True, sessions=3)
+        add("maxblock", 1, bsid=5, raw=False, bcrc=True, sessions=2)
+        add("maxblock", 1, bsid=4, raw=True, bcrc=True, sessions=2)
     elif tier == "search":
         add("valid", 60, frames=3, sessions=8)
         add("mutated", 60, frames=4, sessions=4)
@@ -77,6 +80,9 @@ def gen_cases(tier, seed):
         add("recycle", 6, bsid=4, sessions=4)
         add("recycle", 2, bsid=4, small_blocks=True, sessions=4)
         add("recycle", 1, bsid=5, sessions=3)
+        for b in (4, 5):
+            add("maxblock", 2, bsid=b, raw=False, bcrc=True, sessions=3)
+            add("maxblock", 1, bsid=b, raw=True, bcrc=True, sessions=2)
     else:
         add("valid", 300, frames=3, sessions=10)
         add("mutated", 300, frames=4, sessions=5)
@@ -94,6 +100,11 @@ def gen_cases(tier, seed):
         add("recycle", 8, bsid=4, small_blocks=True, sessions=4)
         add("recycle", 6, bsid=5, sessions=4)
         add("recycle", 2, bsid=4, sessions=5, one=True)
+        for b in (4, 5, 6, 7):
+            for raw in (False, True):
+                for bc in (True, False):
+                    add("maxblock", 2 if b <= 5 else 1, bsid=b, raw=raw, bcrc=bc, sessions=4 if b <= 5 else 2)
+        add("maxblock", 1, bsid=4, raw=False, bcrc=True, sessions=1, one=True)
     return cases
 
 def worker_init(ctx):
@@ -407,6 +418,59 @@ def k_recycle(st, acc, rng, case):
             acc.fail("corr_fail", "model/code disagree: " + str(r["corr"]), det)
         acc.keys.add(hashlib.sha1(fr + repr(sorted(p.items())).encode()).hexdigest())
 
+def k_maxblock(st, acc, rng, case):
+    """Directed: a block whose stored size equals the frame's maximum block size EXACTLY (the header check is
+    `>`), compressed (hand-built: all literals) or uncompressed, with/without block checksum, fed in pieces so
+    that block body + checksum are accumulated in the staging buffer tmpIn[maxBlockSize + 4]
+    (theorem C08_staging_in_bounds is about this array; the library's allocation is exact under ASan)."""
+    bsid = case.get("bsid", 4)
+    maxb = F.BSIZE[bsid]
+    raw = case.get("raw", False)
+    bcrc = case.get("bcrc", True)
+    ccrc = rng.random() < 0.5
+    indep = rng.random() < 0.5
+    if raw:
+        data = rng.randbytes(maxb); content = data
+    else:
+        data, content = F.stored_max_block(rng, maxb)
+    lead = b""; leadc = b""
+    if rng.random() < 0.4:                      # a small block first
+        leadc = rng.randbytes(rng.choice([1, 50, 3000])); lead = F.block(leadc, True, bcrc)
+    hdr = F.header(bsid, indep, bcrc, None, ccrc, None)
+    body = lead + F.block(data, raw, bcrc)
+    fr = hdr + body + struct.pack("<I", 0) + (struct.pack("<I", F.xxh32(leadc + content)) if ccrc else b"")
+    content = leadc + content
+    bstart = len(hdr) + len(lead) + 4          # first byte of the block body
+    bend = bstart + maxb                        # first byte after the body (block checksum, if any)
+    acc.stats["maxblock_bsid%d_%s_%s" % (bsid, "raw" if raw else "comp", "bcrc" if bcrc else "nobcrc")] += 1
+    step = max(3000, maxb // rng.choice([3, 5, 9]))
+    plans = [("cuts", [bstart + rng.randrange(1, 200)] + list(range(bstart + step, bend, step)) + [bend + (2 if bcrc else 0)], "large", False),
+             ("crc_cut", [len(hdr) + 2, bend + (rng.randrange(1, 4) if bcrc else -1)], rng.choice(["large", "bs", "kb"]), False),
+             ("block_minus_1", [bstart, bend + (4 if bcrc else 0) - 1], "large", False),
+             ("whole", "whole", "large", False)]
+    if case.get("one"):
+        plans.append(("one", "one", "large", True))          # 1-byte pieces: real code only (ASan, content)
+    for name, chunking, cap, nomodel in plans[:case.get("sessions", 3)] + (plans[4:] if case.get("one") else []):
+        s = F.Session(st, no_model=nomodel)
+        try:
+            r = F.drive(s, rng, fr, chunking, cap, bs=maxb, hlen=len(hdr), max_calls=5000000 if nomodel else 8000)
+        finally:
+            acc.evals += s.calls
+            s.free()
+        acc.stats["sessions"] += 1; acc.stats["calls"] += s.calls; acc.stats["chunking_" + name] += 1
+        for k, v in s.stages.items(): acc.stats["rest_" + k] += v
+        det = {"data": "len=%d md5=%s" % (len(fr), md5(fr)), "bseed": case["bseed"], "bsid": bsid, "raw": raw, "bcrc": bcrc,
+               "chunking": name, "cuts": chunking if isinstance(chunking, list) else None, "cap": cap, "verdict": r["verdict"], "code": r.get("code")}
+        v = r["verdict"]
+        if v in ("prop", "noprogress"):
+            acc.fail("prop_fail", str(r["what"]), det); return
+        if v != "complete" or r["out"] != content or r["pos"] != len(fr):
+            acc.fail("prop_fail", "valid frame with a block of stored size == maxBlockSize (%s, chunking %s) not decoded: %s %s" % (
+                "raw" if raw else "compressed", name, v, F.ERR.get(r.get("code"), r.get("code"))), det); return
+        if r.get("corr") and not any(f["status"] == "corr_fail" for f in acc.fails):
+            acc.fail("corr_fail", "model/code disagree: " + str(r["corr"]), det)
+        acc.keys.add(hashlib.sha1(fr + name.encode()).hexdigest())
+
 def lz4f_frame(st, rng, data, dict_id=0):
     lib = st["lib"]
     pr = Prefs()
@@ -567,5 +631,6 @@ def run_case(st, case):
     elif kind == "flgbd": k_flgbd(st, acc, rng, case)
     elif kind == "corpus": k_corpus(st, acc, rng, case)
     elif kind == "recycle": k_recycle(st, acc, rng, case)
+    elif kind == "maxblock": k_maxblock(st, acc, rng, case)
     else: raise ValueError(kind)
     return acc.results()
